@@ -130,7 +130,8 @@ class PositionHlCommander:
         """
         if self._is_flying:
             landing_height = self._landing_height(landing_height)
-            duration_s = (self._z - landing_height) / self._velocity(velocity)
+            # The landing height can be above the current height
+            duration_s = abs(self._z - landing_height) / self._velocity(velocity)
             self._hl_commander.land(landing_height, duration_s)
             time.sleep(duration_s)
             self._z = landing_height
